@@ -559,3 +559,4 @@ _reuse("C09/independent-ecies", "C07/ecc-block.independent-unwrap-gives-the-file
 # registered implementations (os.urandom, SigningKey.generate on P-256) with the caller's arguments
 _reuse("C06/crypto.registry", "C07/crypto.registry(random_bytes,generate_private_ecc_key->registered)")
 _reuse("C09/plug-in.key-proxies", "C07/plug-in.key-proxies(generate-on-P-256,random_bytes=os.urandom)")
+_reuse("C03/Bec2File.to_binary+write_file", "C07/Bec2File.to_binary.body-under-the-file's-session-key")
